@@ -49,6 +49,8 @@ type scenario struct {
 
 var progress atomic.Int64
 
+const watchdogAfter = 120 * time.Second
+
 // realNow is the real monotonic-ish clock in nanoseconds (time.Now is virtual inside a bubble).
 func realNow() int64 {
 	var tv syscall.Timeval
@@ -193,6 +195,47 @@ func runScenario(t *testing.T, out *vutil.Out, id int, kind string, rnd *rand.Ra
 		n := 6 + rnd.Intn(9)
 		if kind == "expiry" {
 			n = 10
+		}
+		if kind == "held" {
+			// directed prelude: obtain a certificate, hold its renewal at the CA, and call GetCertificate for the same
+			// key and for another one while the renewal is in flight
+			k := keys[rnd.Intn(len(keys))]
+			step("get g1 " + k)
+			doGet("g1", k)
+			step("gate " + k)
+			w.mu.Lock()
+			w.gate[k] = make(chan struct{})
+			w.ev(map[string]any{"ev": "gate", "k": k})
+			w.mu.Unlock()
+			gated = k
+			d := 90*day - thr - 2*time.Hour
+			step("sleep " + d.String())
+			time.Sleep(d)
+			quiet()
+			for i := 0; i < 80; i++ {
+				w.mu.Lock()
+				at := w.atGate[k]
+				w.mu.Unlock()
+				if at {
+					break
+				}
+				step("sleep 20m0s")
+				time.Sleep(20 * time.Minute)
+				quiet()
+			}
+			w.mu.Lock()
+			at := w.atGate[k]
+			w.mu.Unlock()
+			if at {
+				n0, _ := out.Extra["renewals_held_with_concurrent_calls"].(int)
+				out.Extra["renewals_held_with_concurrent_calls"] = n0 + 1
+			}
+			for _, kk := range []string{k, keys[(rnd.Intn(len(keys)))], k} {
+				g := "g" + strconv.Itoa(1+rnd.Intn(3))
+				step("get " + g + " " + kk)
+				doGet(g, kk)
+			}
+			n = 3 + rnd.Intn(5)
 		}
 		for i := 0; i < n; i++ {
 			k := keys[rnd.Intn(len(keys))]
@@ -396,15 +439,23 @@ func TestTimer(t *testing.T) {
 				last, since = p, time.Now()
 				continue
 			}
-			if time.Since(since) < 120*time.Second {
+			if time.Since(since) < watchdogAfter {
 				continue
 			}
 			buf := make([]byte, 1<<20)
 			dump := string(buf[:runtime.Stack(buf, true)])
-			inGet := strings.Contains(dump, "autocert.(*Manager).GetCertificate") && strings.Contains(dump, "sync.(*Mutex).Lock")
-			inRenew := strings.Contains(dump, "autocert.(*domainRenewal).renew")
+			inGet, inRenew := false, false
+			for _, g := range strings.Split(dump, "\n\n") {
+				if strings.Contains(g, "autocert.(*Manager).GetCertificate") &&
+					(strings.Contains(g, "sync.(*Mutex).Lock") || strings.Contains(g, "sync.(*RWMutex).RLock") || strings.Contains(g, "sync.(*RWMutex).Lock")) {
+					inGet = true
+				}
+				if strings.Contains(g, "autocert.(*domainRenewal).renew") {
+					inRenew = true
+				}
+			}
 			if inGet && inRenew {
-				out.Violation("x05-getcertificate-blocked-on-mutex", "GetCertificate is blocked on a mutex while a renewal is in flight (no progress for 120 s of real time)", map[string]any{"dump": dump[:min(len(dump), 6000)]})
+				out.Violation("x05-getcertificate-blocked-on-mutex", "GetCertificate is blocked on a lock while a renewal is in flight (no progress for 120 s of real time; the goroutine dump shows the call in sync.Mutex/RWMutex and a renew goroutine alive)", map[string]any{"dump": dump[:min(len(dump), 6000)]})
 			}
 			out.Extra["hang_dump"] = dump[:min(len(dump), 4000)]
 			out.Write()
@@ -416,6 +467,8 @@ func TestTimer(t *testing.T) {
 		kind := "random"
 		if i%6 == 5 {
 			kind = "expiry"
+		} else if i%6 == 2 {
+			kind = "held"
 		}
 		rnd := vutil.Rand(int64(7000 + i))
 		sc := runScenario(t, out, i, kind, rnd)
